@@ -34,7 +34,8 @@ def run_check(prop, tier, seed, replay):
     import fcntl
     os.makedirs(C.BUILD, exist_ok=True)
     runlock = open(os.path.join(C.BUILD, ".runlock"), "w")
-    fcntl.flock(runlock, fcntl.LOCK_EX)
+    # runs against /repo share the lock; a run against another tree (KA_REPO=...) changes coq/Gen and is exclusive
+    fcntl.flock(runlock, fcntl.LOCK_SH if os.path.realpath(C.REPO) == "/repo" else fcntl.LOCK_EX)
     try:
         return _run_check(prop, tier, seed, replay)
     finally:
@@ -63,6 +64,12 @@ def _run_check(prop, tier, seed, replay):
             C.log(br.text[-3000:])
             mb = C.coq_make(mod.MODEL_TARGETS)
             ctx["model_ok"] = mb.ok
+            if any("ResolutionFacts" in f for f in br.failed):
+                try:
+                    ctx["failing_resolutions"] = C.failing_resolution_facts()
+                    C.log("overload resolutions that changed: %r" % (ctx["failing_resolutions"][:5],))
+                except Exception as x:
+                    C.log("could not itemise resolution facts: %r" % (x,))
         else:
             ax, raw = C.print_assumptions(prop, names, rundir)
             if ax is None:
@@ -84,7 +91,8 @@ def _run_check(prop, tier, seed, replay):
         if not ctx["proof_ok"] and not any(v["found_input"] for v in rep.violations):
             rep.violation(dict(kind="proof-obligation", files=ctx.get("build_failed")),
                           "proof obligations of %s no longer check: %s" % (prop, ctx.get("build_failed")),
-                          dict(obligation_files=ctx.get("build_failed"), log=ctx.get("build_log")),
+                          dict(obligation_files=ctx.get("build_failed"), log=ctx.get("build_log"),
+                               changed_overload_resolutions=ctx.get("failing_resolutions")),
                           found_input=False)
     except Exception as x:
         traceback.print_exc()
